@@ -13,4 +13,4 @@ Extraction "model.ml"
   do_sync_raw do_update do_list do_get replay create_entry
   trace_ok watch_outcome relist_outcome krun kinit
   fs_init fs_step nested_view view
-  expected_suffix monitor_log_ok lin_ok done_after_close typed_list join_view prun_view busy_burst_outcome urun tinit.
+  expected_suffix monitor_log_ok lin_ok done_after_close typed_list join_view prun_view busy_burst_outcome urun tinit unitary_log.
